@@ -1005,6 +1005,68 @@ def _loop_level_continue(stmts):
     return False
 
 
+def normalise_next_loops(tree):
+    """`while True: x = next(it, SENTINEL); if x is SENTINEL: POST; break; BODY` with SENTINEL a module-level `object()` is
+    `for x in it: BODY` followed by POST, provided BODY cannot `break` and x is not read once the iterator is used up."""
+    sentinels = set()
+    for st in getattr(tree, "body", []):
+        if isinstance(st, ast.Assign) and len(st.targets) == 1 and isinstance(st.targets[0], ast.Name) and isinstance(st.value, ast.Call) \
+                and isinstance(st.value.func, ast.Name) and st.value.func.id == "object" and not st.value.args and not st.value.keywords:
+            sentinels.add(st.targets[0].id)
+    if not sentinels:
+        return 0
+    n = 0
+    for fn in [f for f in ast.walk(tree) if isinstance(f, (ast.FunctionDef, ast.AsyncFunctionDef))]:
+        for node in ast.walk(fn):
+            for field in ("body", "orelse", "finalbody"):
+                stmts = getattr(node, field, None)
+                if not isinstance(stmts, list) or not stmts or not isinstance(stmts[0], ast.stmt):
+                    continue
+                for w in list(stmts):
+                    if not (isinstance(w, ast.While) and not w.orelse and isinstance(w.test, ast.Constant) and w.test.value is True and len(w.body) >= 2):
+                        continue
+                    a, g = w.body[0], w.body[1]
+                    if not (isinstance(a, ast.Assign) and len(a.targets) == 1 and isinstance(a.targets[0], ast.Name) and isinstance(a.value, ast.Call)
+                            and isinstance(a.value.func, ast.Name) and a.value.func.id == "next" and len(a.value.args) == 2 and not a.value.keywords
+                            and isinstance(a.value.args[0], ast.Name) and isinstance(a.value.args[1], ast.Name) and a.value.args[1].id in sentinels):
+                        continue
+                    x, it, sn = a.targets[0].id, a.value.args[0].id, a.value.args[1].id
+                    t = g.test if isinstance(g, ast.If) else None
+                    if not (isinstance(g, ast.If) and not g.orelse and isinstance(t, ast.Compare) and len(t.ops) == 1 and isinstance(t.ops[0], ast.Is)
+                            and isinstance(t.left, ast.Name) and t.left.id == x and isinstance(t.comparators[0], ast.Name) and t.comparators[0].id == sn
+                            and g.body and isinstance(g.body[-1], ast.Break)):
+                        continue
+                    post, body = g.body[:-1], w.body[2:]
+                    if _loop_level_jumps_kind(body, ast.Break) or _loop_level_jumps_kind(post, (ast.Break, ast.Continue)):
+                        continue
+                    reads_outside = [y for y in ast.walk(fn) if isinstance(y, ast.Name) and y.id == x and isinstance(y.ctx, ast.Load)
+                                     and not any(y is z for b in body for z in ast.walk(b)) and y is not t.left]
+                    if reads_outside or any(isinstance(y, ast.Name) and y.id == it and isinstance(y.ctx, ast.Store) for b in body + post for y in ast.walk(b)):
+                        continue
+                    loop = ast.For(target=ast.Name(id=x, ctx=ast.Store()), iter=ast.Name(id=it, ctx=ast.Load()), body=body or [ast.Pass()], orelse=[])
+                    ast.copy_location(loop, w)
+                    ast.fix_missing_locations(loop)
+                    k = stmts.index(w)
+                    stmts[k:k + 1] = [loop] + post
+                    n += 1
+    return n
+
+
+def _loop_level_jumps_kind(stmts, kinds):
+    for s_ in stmts:
+        if isinstance(s_, kinds):
+            return True
+        if isinstance(s_, (ast.For, ast.While, ast.FunctionDef, ast.AsyncFunctionDef, ast.ClassDef)):
+            continue
+        for field in ("body", "orelse", "finalbody"):
+            sub = getattr(s_, field, None)
+            if isinstance(sub, list) and sub and isinstance(sub[0], ast.stmt) and _loop_level_jumps_kind(sub, kinds):
+                return True
+        if isinstance(s_, ast.Try) and any(_loop_level_jumps_kind(h.body, kinds) for h in s_.handlers):
+            return True
+    return False
+
+
 def normalise_ifexp(tree):
     """`x = A if C else B` is the same statement as `if C: x = A` / `else: x = B`; likewise `return A if C else B`.
     The statement form gives every path-based rule one path per arm."""
@@ -1435,6 +1497,7 @@ def normalise_program(trees):
     reshaped = {}
     for path, tree in trees.items():
         n_ = normalise_count_loops(tree)
+        n_ += normalise_next_loops(tree)
         n_ += normalise_loops(tree)
         k_ = normalise_ifexp(tree)
         while k_:
